@@ -60,6 +60,8 @@ func Average[T constraints.Numeric]() func(Observable[T]) Observable[float64] {
 						if count == 0 {
 							destination.NextWithContext(ctx, math.NaN())
 							destination.CompleteWithContext(ctx)
+
+							return
 						}
 
 						avg := sum / float64(count)
